@@ -207,8 +207,16 @@ def family(run, prefixes, faults, crash, variants=None):
                   and (j == len(ops) - 1 or ops[-1]["op"] == "start")]
             for j in js:
                 if rnd.random() < variants["wfail"]:
-                    for nfail in (1, 2, 3):
+                    for nfail in (1, 2, 3, 6):   # 6: more than any small retry budget a refactoring might introduce
                         extra.append(dict(c, variant="wfail:%d:%d" % (j, nfail)))
+    if variants.get("dfail"):
+        # the k-th datastore write of a (handler-wise) successful DeleteRange fails; the deletion is retried
+        for c in keep:
+            lastop = c["hist"][-1]["op"]
+            if lastop["op"] == "delete" and lastop["kind"] in ("wipe", "tail", "head") and lastop["failAt"] == 0 and lastop["res"] == "ok" \
+                    and rnd.random() < variants["dfail"]:
+                for k in range(1, min(len(lastop["ws"]), 8) + 1):
+                    extra.append(dict(c, variant="dfail:%d" % k))
     if variants.get("parscen"):
         extra.extend(parallel_scenarios(rnd, variants["parscen"]))
     run.cov["variant_runs"] = dict(collections.Counter(e["variant"].split(":")[0] for e in extra))
@@ -236,13 +244,15 @@ def family(run, prefixes, faults, crash, variants=None):
 
 @register("C04")
 def c04(run):
-    family(run, ["C04_", "C06_clean_restart"], faults=False, crash=False, variants={"nowait": 0.3})
+    family(run, ["C04_", "C06_clean_restart"], faults=False, crash=False,
+           variants={"nowait": 0.3, "wfail": 0.08 if run.tier == "quick" else 0.5})
 
 
 @register("C08")
 def c08(run):
     family(run, ["C08_", "C06_clean_restart"], faults=True, crash=False,
-           variants={"nowait": 1.0, "parallel": 0.5 if run.tier == "quick" else 1.0, "parscen": 150 if run.tier == "quick" else 1500})
+           variants={"nowait": 1.0, "parallel": 0.5 if run.tier == "quick" else 1.0, "parscen": 150 if run.tier == "quick" else 1500,
+                     "dfail": 0.15 if run.tier == "quick" else 1.0})
 
 
 @register("C14")
@@ -254,3 +264,6 @@ def c14(run):
 def c06(run):
     family(run, ["C06_", "C04_operation_failed", "C04_every_appended", "C04_head_is_top"], faults=False, crash=True,
            variants={"wfail": 0.5 if run.tier == "quick" else 1.0, "nowait": 0.5 if run.tier == "quick" else 1.0})
+    # free schedules with a Stop somewhere in the middle of appends and Syncs, then a fresh Store on the same datastore
+    from .conc import explore
+    explore(run, "c06", 3000 if run.tier == "quick" else 100000, ["C06_", "C04_head_is_top"])
